@@ -449,6 +449,25 @@ func TestC05(t *testing.T) {
 				pc.Contents = append(pc.Contents[:pos:pos], append([]Entry{e}, pc.Contents[pos:]...)...)
 			}
 		}
+		if rapid.IntRange(0, 5).Draw(rt, "flatdup") == 0 {
+			// one entry whose matches land on the same destination: two files with the same base name flattened into dst/
+			same := rapid.Bool().Draw(rt, "flatdup.same")
+			b2 := "same.conf"
+			if !same {
+				b2 = "other.conf"
+			}
+			pc.Tree = append(pc.Tree,
+				FNode{Rel: "src/fd", Kind: "dir", Mode: 0o755, MTime: 900000000},
+				FNode{Rel: "src/fd/eu", Kind: "dir", Mode: 0o755, MTime: 900000000},
+				FNode{Rel: "src/fd/us", Kind: "dir", Mode: 0o755, MTime: 900000000},
+				FNode{Rel: "src/fd/eu/same.conf", Kind: "file", Size: 3, Seed: 21, Mode: 0o644, MTime: 900000000},
+				FNode{Rel: "src/fd/us/" + b2, Kind: "file", Size: 4, Seed: 22, Mode: 0o644, MTime: 900000000})
+			src := rapid.SampledFrom([]string{"src/fd", "src/fd/", "src/fd/*", "src/fd/**/*.conf"}).Draw(rt, "flatdup.src")
+			if pc.DisableGlobbing {
+				src = "src/fd"
+			}
+			pc.Contents = append(pc.Contents, Entry{Src: src, Dst: "/etc/flatdup/", Type: rapid.SampledFrom([]string{"", "config"}).Draw(rt, "flatdup.type"), Form: "flat"})
+		}
 		r2, err := os.MkdirTemp(scratchBase(), "c05g")
 		if err != nil {
 			rt.Fatalf("%v", err)
